@@ -1,12 +1,14 @@
 (* C08 - Handshakes complete only with a peer that proves the certified identity.
    Property theorems only; each is closed by lemmas of HS/HSAuth.v and followed by Print Assumptions.
    Model: HS/HSModel.v (gmtls client / server state machines, symbolic cryptography: HS/HSTerms.v).
-   Scope: the GMSSL client with the two ECC suites (0xe013, 0xe053), verification on, full handshake (no cached
-   session); servers in every mode with session tickets disabled.  Chain verification is the abstract predicate
+   Scope: sections 1-8 speak of the GMSSL client with the two ECC suites (0xe013, 0xe053: the premise ecc_only), verification on,
+   full handshake (no cached session), and of servers in every mode with session tickets disabled.  The DEFAULT configuration
+   (Config.CipherSuites nil) offers the two ECDHE-SM2 suites as well: section 12 removes ecc_only - requirements for the
+   ECDHE path, and authentication, agreement and secrecy for ANY list of GM suites.  Chain verification is the abstract predicate
    "the certificate is in c_trusted / s_client_trusted" (what Verify returns at the configured time, name, roots). *)
 From Coq Require Import List NArith Arith Bool Lia.
 From GmsmVerif Require Import Lib.Outcome HS.HSTerms HS.HSModel HS.HSProofs HS.HSClientFlight HS.HSTlsClientFlight HS.HSServerFlight HS.HSAuth HS.HSAuth2 HS.HSNames HS.HSSystem HS.HSSessions
-     HS.HSMsgParsers HS.HSMsgMarshal HS.HSMsgMarshalProofs Gen.HSSigTables HS.HSSigAlg HS.HSSigAlgProofs Gen.HSTables HS.HSFlightTie.
+     HS.HSMsgParsers HS.HSMsgMarshal HS.HSMsgMarshalProofs Gen.HSSigTables HS.HSSigAlg HS.HSSigAlgProofs Gen.HSTables HS.HSFlightTie HS.HSSuites.
 Import ListNotations.
 Local Open Scope N_scope.
 
@@ -32,6 +34,13 @@ Print Assumptions C08_client_complete_requires.
      whenever a certificate was presented: a CertificateVerify whose signature verifies under the leaf's key over
      Hash(THIS transcript up to the ClientKeyExchange);
    and a Finished equal to PRF(master, "client finished", Hash(transcript)). *)
+(* NOT PROVED (server-side authentication in the attacker model): no theorem composes server_requirements with
+   C08_attacker_cannot_sign into "a server with ClientAuth >= RequireAndVerifyClientCert that completes has an honest client
+   session with the same transcript".  What is proved for the server side is the requirement (the CertificateVerify verifies
+   under the leaf's key over THIS transcript, the leaf chains to ClientCAs) plus the unforgeability lemma (such a signature
+   occurs in a message an honest holder of that key sent); the link "that honest signer is a client session with this
+   transcript" would need an invariant on client signatures in HSSessions and is left open - the AC attack scripts
+   (cv_key2, cv_replay, cv_early, chain_key2, ...) cover it differentially only. *)
 Theorem C08_server_complete_requires : forall cfg ins st',
   s_tickets cfg = false -> server_run cfg ins = RComplete st' -> server_requirements cfg ins st'.
 Proof. exact server_complete_requires. Qed.
@@ -233,16 +242,14 @@ Print Assumptions C08_wire_messages_deliverable.
    (HS/HSMsgMarshal.v, HSMsgParsers.v; round trip and framing proved in C15) close the gap: if the messages one side
    marshalled (well-formed values ws1) and the messages the other side holds (ws2: marshalled by it, or parsed by it from
    the bytes it received - by C15_any_message_roundtrip the parse of marshalled bytes is the value itself) give the same
-   bytes, then they are the same message values, one by one, in order; hence they are equal under EVERY abstraction of
-   message values into terms - in particular the symbolic transcripts [map (enc_hmsg o abs)] agree, for whatever
-   abstraction function abs the symbolic model stands for. *)
-Theorem C08_equal_byte_transcripts_equal_views : forall (abs : wire_msg -> hmsg) ctx ws1 ws2,
+   bytes, then they are the same message values, one by one, in order.  (Any function of the message values then agrees as
+   well - that is mere congruence and not stated.  The abstraction from byte-level message values to the symbolic messages
+   hmsg is NOT defined in Coq: that the symbolic transcript of an endpoint is a function of the values it marshalled or
+   parsed is the modelling assumption under which the symbolic agreement theorems speak about the bytes.) *)
+Theorem C08_equal_byte_transcripts_equal_views : forall ctx ws1 ws2,
   Forall (wf_any ctx) ws1 -> Forall (wf_any ctx) ws2 ->
-  transcript_bytes ctx ws1 = transcript_bytes ctx ws2 ->
-  ws1 = ws2 /\ map (fun w => enc_hmsg (abs w)) ws1 = map (fun w => enc_hmsg (abs w)) ws2.
-Proof.
-  intros abs ctx ws1 ws2 H1 H2 E. pose proof (transcript_bytes_injective ctx ws1 ws2 H1 H2 E) as ->. split; reflexivity.
-Qed.
+  transcript_bytes ctx ws1 = transcript_bytes ctx ws2 -> ws1 = ws2.
+Proof. exact transcript_bytes_injective. Qed.
 Print Assumptions C08_equal_byte_transcripts_equal_views.
 
 (* the receiver's side of it: reading the sender's bytes message by message (readHandshake) yields the sender's values *)
@@ -315,6 +322,73 @@ Proof.
   destruct (certificate_verify_key_is_source_index cfg st m st1 r Hph Hr H) as [_ Hx]. exact Hx.
 Qed.
 Print Assumptions C08_certificate_verify_checked_with_the_leaf_key.
+
+(* 12. Any list of GM suites - in particular the default one, which also offers ECDHE-SM2 (0xe011, 0xe051; getCipherSuites in
+   gm_support.go).  (a) For EVERY delivered sequence a completed client has met the ECC requirements of 1, or those of the
+   ECDHE path (HSSuites.ecdhe_gm_requirements): the same certificate checks, a ServerKeyExchange naming curve 29 whose
+   signature by certificate 0's key covers this session's randoms and that parameter block - the only parameter block
+   ecdheKeyAgreementGM goes on with (gm_key_agreement.go: its X25519 branch uses a never-set public value) - and then a
+   master secret computed from a PUBLIC constant: no secrecy on that path. *)
+Theorem C08_gm_client_complete_requires_any_suite : forall cfg ins st',
+  c_gm cfg = true -> c_verify cfg = true -> c_session cfg = None ->
+  client_run cfg ins = RComplete st' ->
+  client_requirements cfg ins st' \/ ecdhe_gm_requirements cfg ins st'.
+Proof. exact gm_client_complete_requires_any_suite. Qed.
+Print Assumptions C08_gm_client_complete_requires_any_suite.
+
+(* (b) one connection against the attacker, the premises of 3 without ecc_only: everything 3 concludes, or a holder of
+   certificate 0's key has signed "curve 29" for this session's randoms (which no honest gmtls server does: its
+   ECDHE-SM2 server side is not implemented) and the master secret is the public one *)
+Theorem C08_authentication_any_suite : forall AK own (K : term -> Prop) cfg ins st',
+  c_gm cfg = true -> c_verify cfg = true -> c_session cfg = None ->
+  (forall i, In i ins -> deliverable AK own K i) ->
+  (forall c, is_cert c = true -> tmem c (c_trusted cfg) = true -> AK (cert_key c) = false) ->
+  own (c_pms cfg) = false ->
+  (forall u, K u -> hidden AK (TPMS (c_pms cfg)) u) ->
+  (forall u sr, K u -> hidden AK (client_master cfg sr) u) ->
+  client_run cfg ins = RComplete st' ->
+  exists sh certs vd,
+    In (IHs (MServerHello sh)) ins /\ In (IHs (MCertificate certs)) ins /\ In (IHs (MFinished vd)) ins /\
+    let c0 := nth_cert 0 certs in
+    let c1 := nth_cert 1 certs in
+    ((exists u, K u /\ sub (TSig (cert_key c0) (skx_payload (TRand (c_rand cfg)) (sh_random sh) c1)) u) /\
+     (exists tr, vd = finished_sum 0 (client_master cfg (sh_random sh)) L_server_finished tr) /\
+     (exists u, K u /\ sub vd u) /\
+     ~ derives AK own K (TPMS (c_pms cfg)) /\ ~ derives AK own K (client_master cfg (sh_random sh)))
+    \/
+    ((exists u, K u /\ sub (TSig (cert_key c0) (skx_payload (TRand (c_rand cfg)) (sh_random sh) (TLabel 29))) u) /\
+     cs_master st' = TPRF (TLabel 0) (TPair L_master (TLabel 0)) (TPair (TRand (c_rand cfg)) (sh_random sh))).
+Proof. exact authentication_any_suite. Qed.
+Print Assumptions C08_authentication_any_suite.
+
+(* (c) In the multi-session system of 8 (honest servers are gmtls servers: for an ECDHE-SM2 suite they fail, and what
+   their ServerKeyExchange signs in third position is a certificate, never a parameter block) a protected client NEVER
+   completes on the ECDHE path, whatever it offers and whatever the attacker replays: every completion meets the ECC
+   requirements.  Hence agreement and secrecy with no ecc_only: *)
+Theorem C08_protected_client_completes_only_on_ecc : forall AK own s cfg ins st_c,
+  reach AK own s -> In (PClient cfg ins) (parties s) -> protected AK cfg ->
+  client_run cfg ins = RComplete st_c -> client_requirements cfg ins st_c.
+Proof. exact protected_client_completes_on_ecc. Qed.
+Print Assumptions C08_protected_client_completes_only_on_ecc.
+
+Theorem C08_agreement_sessions_any_suite : forall AK own s cfg ins st_c,
+  reach AK own s -> In (PClient cfg ins) (parties s) -> protected AK cfg ->
+  (forall cfg' ins', In (PClient cfg' ins') (parties s) -> c_pms cfg' = c_pms cfg -> protected AK cfg') ->
+  client_run cfg ins = RComplete st_c ->
+  exists scfg ins_s st_s,
+    In (PServer scfg ins_s) (parties s) /\ server_run scfg ins_s = RComplete st_s /\
+    ss_tr st_s = cs_tr st_c /\ ss_master st_s = cs_master st_c.
+Proof. exact agreement_sessions_any_suite. Qed.
+Print Assumptions C08_agreement_sessions_any_suite.
+
+(* secrecy of the master secret THE SESSION USES (cs_master of the completed client), and of its pre-master secret *)
+Theorem C08_completed_session_secrecy : forall AK own s cfg ins st_c,
+  reach AK own s -> In (PClient cfg ins) (parties s) -> protected AK cfg ->
+  (forall cfg' ins', In (PClient cfg' ins') (parties s) -> c_pms cfg' = c_pms cfg -> protected AK cfg') ->
+  client_run cfg ins = RComplete st_c ->
+  ~ derives AK own (knows (wire s)) (cs_master st_c) /\ ~ derives AK own (knows (wire s)) (TPMS (c_pms cfg)).
+Proof. exact completed_session_secrecy. Qed.
+Print Assumptions C08_completed_session_secrecy.
 
 (* ---- non-vacuity ----------------------------------------------------------------------------------------- *)
 Definition ex_sig := TCert 1 KIND_SM2 KU_SIGN 101.
@@ -530,3 +604,27 @@ Example C08_sigalg_examples :
   hashForClientCertificate 769 17 3 = Ok D_SHA1 /\ hashForClientCertificate 769 16 8 = Ok D_MD5SHA1 /\
   hashForClientCertificate 257 19 3 = Ok D_SM3 /\ hashForServerKeyExchange 771 16 6 = Ok D_SHA384.
 Proof. vm_compute. repeat split; reflexivity. Qed.
+
+(* the ECDHE-SM2 path: a client with the DEFAULT suite list; a server that picks 0xe011 and signs "curve 29" for this
+   session's randoms makes it complete with the public master secret (so the second disjunct of 12(a) is inhabited);
+   the honest gmtls server model never does - it picks an ECC suite from the same ClientHello, and for a client that
+   offers only ECDHE suites it fails *)
+Definition ex_client_default : cconfig :=
+  mkCC true 771 [57363; 57427; 57361; 57425] true [ex_sig; ex_enc] None false None 11 12 13 14.
+Definition ex_sh_ecdhe : server_hello := mkSH VersionGMSSL (TRand 21) TNil 57361 true false false false false false.
+Definition ex_ecdhe_prefix : list input :=
+  [IHs (MServerHello ex_sh_ecdhe); IHs (MCertificate [ex_sig; ex_enc]);
+   IHs (MServerKeyExchange true (TLabel 29) (TSig 101 (skx_payload (TRand 11) (TRand 21) (TLabel 29))));
+   IHs MServerHelloDone; ICCS true].
+Definition ex_ecdhe_finished : term :=
+  match client_run ex_client_default ex_ecdhe_prefix with
+  | RWaiting st => finished_sum (cs_fp st) (cs_master st) L_server_finished (cs_tr st)
+  | _ => TNil
+  end.
+Example C08_ecdhe_path :
+  (exists st', client_run ex_client_default (ex_ecdhe_prefix ++ [IHs (MFinished ex_ecdhe_finished)]) = RComplete st' /\
+               cs_master st' = TPRF (TLabel 0) (TPair L_master (TLabel 0)) (TPair (TRand 11) (TRand 21))) /\
+  (match pair_run ex_client_default (ex_server 0) with ((c, PDone), (_, PDone)) => match cs_kx c with KxECC => true | _ => false end | _ => false end) = true /\
+  (match pair_run (mkCC true 771 [57361; 57425] true [ex_sig; ex_enc] None false None 11 12 13 14) (ex_server 0)
+   with ((_, PFailed), (_, PFailed)) => true | _ => false end) = true.
+Proof. split; [eexists; vm_compute; split; reflexivity|]. vm_compute. split; reflexivity. Qed.
